@@ -91,7 +91,10 @@ class CallMixin:
                 args = [self.eval(fr, a) for a in node.args]
                 kw = {k.arg: self.eval(fr, k.value) for k in node.keywords}
                 return self.seq_method(fr, recv, node.func.attr, args, kw, node.func.value, node)
-            if isinstance(recv, SDyn) and not recv.callable and node.func.attr in PURE_DYN_METHODS_:
+            if isinstance(recv, SDec) and node.func.attr in (getattr(self.d.contract, 'method_results', None) or {}):
+                # pure method of a Decimal with a declared result shape (as_tuple): one symbolic result per receiver term
+                f = SBuiltin('dynmeth!' + node.func.attr, recv)
+            elif isinstance(recv, SDyn) and not recv.callable and node.func.attr in PURE_DYN_METHODS_:
                 ln = getattr(node, 'lineno', None)
                 if not self.specmode and not isinstance(recv.shape, (S.Rec, S.Opaque)) and not self.d.contract_assumes('METHODS_PRESENT'):
                     if self.branch(Val.is_VNone(recv.t)):
